@@ -132,6 +132,9 @@ def run(ctx):
     for l, rr, m in nd[:2]:
         ctx.violation("attribute built on DISPATCH_QUEUE_CONCURRENT in a position-dependent executable (the constant is a copy of the table entry outside the table): real library answered `%s`, the property requires `%s` for `%s`" % (rr, m, l),
                       {"line": l, "real": rr, "expected": m, "nopie": True}, signature="c18:nopie:" + l.split()[0])
+    # the first queue-specific values of a fresh queue stored at the same moment by several threads: none is lost
+    from tracecheck import run_traces
+    run_traces(ctx, "c18_firstset", [[ctx.seed * 10 + i, 12000 if ctx.thorough else 3000] for i in range(2)], None, None, "L-api first values stored at once", "firstset", timeout=200)
     # known finding F41: dispatch_assert_queue inside dispatch_apply answers by the thread that runs the iteration
     from lanetrace import forced
     forced(ctx, "f41_apply_assert", "F41", "c18:assert:apply-iteration-thread:forced-F41", "F41")
